@@ -12,7 +12,7 @@ use crate::probe::{CallInfo, Policy, Probe, StepRec};
 use crate::statejson::{self, ShapeSpec};
 
 pub const TITLE: &str = "No Monte-Carlo move is larger than the configured maximum step";
-pub const RULE: &str = "part scripted: synthetic states with 2..8 parameters whose ranges are log-uniform between 1e-3 and 1e3 wide, max_step_size 1e-4..1, 1..30 inner loops, any kT; the score script fixes the rejection pattern of every loop (0%, 25%, 75%, 100% or a generated bit pattern: accepted proposals get an ever increasing score, rejected ones no score), so the step-size adaptation sees every rejection history. part real: real hard and Lennard-Jones states of all groups with the package's own ranges. Oracle: for every proposal whose base state is identified from the trace: at most one coordinate differs and |proposal - base| <= max_step_size * (max - min)/2 * (1+1e-12) (clamping can only shorten a move; with two candidate bases the smaller distance is used, so a move is never over-reported). Non-trivial = a judged step in loop >= 2 that follows a loop with fewer than 100% rejections; distinct by hash of the case.";
+pub const RULE: &str = "part scripted: synthetic states with 2..8 parameters whose ranges are log-uniform between 1e-3 and 1e3 wide, max_step_size 1e-4..1, 1..30 inner loops, any kT; the score script fixes the rejection pattern of every loop (0%, 25%, 75%, 100% or a generated bit pattern: accepted proposals get an ever increasing score, rejected ones no score), so the step-size adaptation sees every rejection history. part real: real hard and Lennard-Jones states of all groups with the package's own ranges. Oracle: for every proposal whose base state is identified from the trace: at most one coordinate differs and |proposal - base| <= max_step_size * (max - min)/2 * (1+1e-12) (clamping can only shorten a move; the distance is taken to the nearest of the candidate bases and of all values that coordinate has held earlier in the run, so a move is never over-reported and a restore to an older value — C06's subject — is not mistaken for a long move). Non-trivial = a judged step in loop >= 2 that follows a loop with fewer than 100% rejections; distinct by hash of the case.";
 
 pub fn assumptions() -> Vec<&'static str> {
     vec!["real-state ranges are the statement's: length [0.01, start], ratio [0.1, start], angle [pi/6, pi/2], x,y [-1/2,1/2], orientation [0, 2pi]; parameters are read in the order of generate_basis()"]
@@ -90,6 +90,24 @@ fn judge_steps(steps: &[StepRec], proposals: u64, inner: u64, max_step: f64, ran
     let mut judged = 0u64;
     let mut nt = false;
     let mut loop_had_accept = vec![false; (proposals / inner.max(1) + 2) as usize];
+    // every value each coordinate has held in an evaluated state so far: a move is measured from the nearest of
+    // them, so that a restore to an older value (C06's subject) is not reported here as an over-long move
+    let mut seen: Vec<Vec<f64>> = vec![Vec::new(); ranges.len()];
+    let mut remember = |seen: &mut Vec<Vec<f64>>, v: &[f64]| {
+        for (i, x) in v.iter().enumerate() {
+            if i < seen.len() {
+                let pos = seen[i].partition_point(|y| y < x);
+                if pos >= seen[i].len() || seen[i][pos] != *x {
+                    seen[i].insert(pos, *x);
+                }
+            }
+        }
+    };
+    if let Some(first) = steps.first() {
+        if let Some(b) = &first.base {
+            remember(&mut seen, b);
+        }
+    }
     for st in steps.iter() {
         let k = st.k as u64;
         if k > proposals {
@@ -105,29 +123,40 @@ fn judge_steps(steps: &[StepRec], proposals: u64, inner: u64, max_step: f64, ran
             loop_had_accept[l] = true;
         }
         if st.n_bases == 0 {
+            remember(&mut seen, &st.proposal);
             continue;
         }
         if let Some(i) = st.changed {
             let limit = max_step * ranges[i] / 2. * (1. + 1e-12);
             judged += 1;
-            if st.delta_min > limit {
+            let x = st.proposal[i];
+            let pos = seen[i].partition_point(|y| *y < x);
+            let mut nearest = st.delta_min;
+            if pos < seen[i].len() {
+                nearest = nearest.min((seen[i][pos] - x).abs());
+            }
+            if pos > 0 {
+                nearest = nearest.min((seen[i][pos - 1] - x).abs());
+            }
+            if nearest > limit {
                 return Err(format!(
-                    "{}: proposal #{} (inner loop {}) moves parameter {} by {:e}; max_step_size * range / 2 = {} * {} / 2 = {:e} ({:.1} times the configured maximum)",
+                    "{}: proposal #{} (inner loop {}) moves parameter {} by {:e} (measured from the nearest value that parameter has held so far); max_step_size * range / 2 = {} * {} / 2 = {:e} ({:.1} times the configured maximum)",
                     what,
                     k,
                     l + 1,
                     i,
-                    st.delta_min,
+                    nearest,
                     max_step,
                     ranges[i],
                     limit,
-                    st.delta_min / limit
+                    nearest / limit
                 ));
             }
             if l >= 1 && loop_had_accept[l - 1] {
                 nt = true;
             }
         }
+        remember(&mut seen, &st.proposal);
     }
     Ok((judged, nt))
 }
@@ -203,7 +232,7 @@ fn judge_real<S: State>(state: S, group: usize, cfg: &OptCfg, rec: &Rec) -> Resu
     let model = probe.model.clone();
     {
         let mut m = model.lock().unwrap();
-        m.use_expectations = false;
+        m.mode = crate::probe::Mode::Agnostic;
     }
     let cfg2 = cfg.clone();
     let res = std::panic::catch_unwind(std::panic::AssertUnwindSafe(move || {
